@@ -52,6 +52,18 @@ def run_plan(plan, limit=None):
     return fork_call(_exec_in_child, plan, limit or _CTX['limit'])
 
 
+def full_run(plan):
+    """Execute a plan in a fork and apply the engine's worker-side checks
+    (reference evaluations in further pristine forks)."""
+    from sim.procs import fork_call
+    eng = _CTX['engine']
+    res = run_plan(plan)
+    if hasattr(eng, 'worker_post'):
+        res = eng.worker_post(plan, res, _CTX['ctx'], fork_call,
+                              _CTX['tcfg'])
+    return res
+
+
 def run_index(i):
     """Worker-side: generate plan i and execute it in a fork."""
     from sim.rng import run_seed
@@ -59,9 +71,26 @@ def run_index(i):
     seed = run_seed(_CTX['batch_seed'], eng.ENGINE + _CTX['variant'],
                     _CTX['tier'], i)
     plan = eng.gen_plan(seed, i, _CTX['tier'], **_CTX['eng_kw'])
-    res = run_plan(plan)
+    res = full_run(plan)
+    probe = 0
+    if res['violations'] and hasattr(eng, 'has_amplifier') and \
+            eng.has_amplifier(plan):
+        # R2: a violation found in a history that contains line-level aborts
+        # counts only if it persists with every abort removed
+        plan2 = eng.strip_amplifiers(plan)
+        res2 = full_run(plan2)
+        sigs2 = {tuple(eng.signature(v)) for v in res2['violations']}
+        keep = [v for v in res['violations']
+                if tuple(eng.signature(v)) in sigs2]
+        probe = len(res['violations']) - len(keep)
+        if keep:
+            plan, res = plan2, res2
+        else:
+            res['violations'] = []
+    res['stats']['probe_abort_only'] = probe
     states = sorted(repr(s) for s in eng.abstract_states(res))
     out = {'index': i, 'seed': seed, 'digest': res['digest'],
+           'schedule_digest': res.get('schedule_digest', res['digest']),
            'violations': res['violations'], 'known_hits': res['known_hits'],
            'stats': res['stats'], 'states': states,
            'nevents': len(res['events'])}
@@ -73,7 +102,8 @@ def run_index(i):
 
 
 def digest_index(i):
-    return [i, run_index(i)['digest']]
+    r = run_index(i)
+    return [i, r['digest'], r['schedule_digest']]
 
 
 def merge_stats(total, st):
@@ -103,7 +133,7 @@ def minimise(plan, sig, eng, budget=150):
             if tried > budget:
                 break
             try:
-                res = run_plan(cand)
+                res = full_run(cand)
             except Exception:
                 continue
             if any(eng.signature(v) == sig for v in res['violations']):
@@ -142,7 +172,7 @@ def write_replay(prop, eng, plan, violation, repo, tried):
 def do_replay(prop, eng, path):
     with open(path) as fh:
         body = json.load(fh)
-    res = run_plan(body['plan'])
+    res = full_run(body['plan'])
     want = tuple(body['signature'])
     print('\n'.join(eng.describe(body['plan'], res)))
     for v in res['violations']:
@@ -194,10 +224,14 @@ def main():
     tier = args.tier
     tcfg = eng.tiers(**eng_kw)[tier]
     _CTX.update(engine=eng, tier=tier, batch_seed=batch_seed, eng_kw=eng_kw,
+                tcfg=tcfg,
                 variant=eng_kw.get('mode', ''), limit=tcfg.get('limit', 120),
                 ctx={'findings': [f for f in F.load()
                                   if f['property'] == prop],
                      'property': prop, **eng_kw})
+    if hasattr(eng, 'prepare'):
+        from sim.procs import fork_call
+        eng.prepare(_CTX['ctx'], fork_call)
     if args.replay:
         return do_replay(prop, eng, args.replay)
     if args.digests:
@@ -222,27 +256,48 @@ def main():
         step = max(1, nruns // n)
         idx = list(range(0, nruns, step))[:n]
         again = run_batch(digest_index, idx, workers=1, chunk=len(idx))
-        bad = [i for (i, d) in again if d != results[i]['digest']]
-        cmd = [sys.executable, os.path.abspath(__file__), prop, '--tier',
-               tier, '--digests', ','.join(map(str, idx))]
-        env = dict(os.environ, PYTHONHASHSEED='1', VERIF_SEED=str(batch_seed))
-        proc = subprocess.run(cmd, env=env, capture_output=True, text=True,
-                              timeout=tcfg.get('limit', 120) * 4 + 600)
-        fresh = None
-        for line in proc.stdout.splitlines():
-            if line.startswith('DIGESTS '):
-                fresh = json.loads(line[8:])
-        if fresh is None:
+        bad = [i for (i, d, _) in again if d != results[i]['digest']]
+
+        def fresh(hashseed):
+            cmd = [sys.executable, os.path.abspath(__file__), prop, '--tier',
+                   tier, '--digests', ','.join(map(str, idx))]
+            env = dict(os.environ, PYTHONHASHSEED=hashseed,
+                       VERIF_SEED=str(batch_seed))
+            proc = subprocess.run(cmd, env=env, capture_output=True,
+                                  text=True,
+                                  timeout=tcfg.get('limit', 120) * 4 + 600)
+            for line in proc.stdout.splitlines():
+                if line.startswith('DIGESTS '):
+                    return json.loads(line[8:])
             print('HARNESS-ERROR: fresh-interpreter self-test produced no '
                   'digests:\n' + proc.stdout[-2000:] + proc.stderr[-2000:])
+            return None
+        # another hash seed in a fresh interpreter: the schedule (ops, slots,
+        # faults fired, outcome classes) must be identical; full outcomes too
+        # unless the engine declares a hash-seed dependent output (DS9 global
+        # line order, observation O1 in DESIGN.md)
+        other = fresh('1')
+        if other is None:
             return 2
-        bad2 = [i for (i, d) in fresh if d != results[i]['digest']]
+        sens = getattr(eng, 'HASHSEED_SENSITIVE', False)
+        bad2 = [i for (i, d, sd) in other
+                if (sd != results[i]['schedule_digest'] if sens
+                    else d != results[i]['digest'])]
+        bad3 = []
+        if sens:
+            same = fresh(os.environ.get('PYTHONHASHSEED', '0'))
+            if same is None:
+                return 2
+            bad3 = [i for (i, d, sd) in same if d != results[i]['digest']]
         selftest = {'seeds': len(idx), 'rerun_same_process_tree_mismatch': bad,
                     'fresh_interpreter_other_hashseed_mismatch': bad2,
+                    'fresh_interpreter_same_hashseed_mismatch': bad3,
+                    'other_hashseed_compares': 'schedule digest' if sens
+                    else 'full event-log digest',
                     'worker_counts': [args.workers or 16, 1]}
-        if bad or bad2:
+        if bad or bad2 or bad3:
             print(f'HARNESS-ERROR: nondeterministic runs: rerun={bad} '
-                  f'fresh/hashseed1={bad2}')
+                  f'fresh/hashseed1={bad2} fresh/same-hashseed={bad3}')
             return 2
 
     # ---- aggregate
@@ -280,7 +335,7 @@ def main():
                 plan = eng.gen_plan(r['seed'], r['index'], tier, **eng_kw)
             small, tried = minimise(plan, sig, eng,
                                     tcfg.get('min_budget', 120))
-            res = run_plan(small)
+            res = full_run(small)
             vv = [x for x in res['violations']
                   if tuple(eng.signature(x)) == sig]
             vshow = vv[0] if vv else v
